@@ -156,8 +156,8 @@ def gen_signal(rng, c, fmin, opts_all=True, br_kinds=None):
     # sub-sample position would otherwise flip with the last bit of p + k*dp
     if c.get("prior") == "float32" and rng.random() < 0.75:
         # data kept in single precision: "data after = data before + signal, rounded once to the data's type" is only put to the test by
-        # signal values that are not themselves single-precision numbers -- the rational profile with a non-dyadic coefficient
-        s["fprof"] = dict(kind="quad", a=float(rng.choice([1, 0.25, 0.1, 0.3])))
+        # signal values that are not themselves single-precision numbers -- the rational profile
+        s["fprof"] = dict(kind="quad", a=float(rng.choice([1, 0.25, 0.5, 2])))      # dyadic coefficients keep the exact model's rationals small; 1/(1+a x^2) is still no float32
     if s["fprof"]["kind"] == "box" and o:
         for key in ("t_sub", "f_sub", "n_smear"):
             if o[key] & (o[key] - 1):
